@@ -36,6 +36,19 @@ SETS = [
     ("raw0", [['r"a\\n"'], ['r"b"']]),
     ("raw1", [['r#"a"b"#'], ['r#"\\"#']]),
     ("raw2", [['r##"x"#y"##'], ['r##""##', 'r"z"']]),
+    # raw literals whose CONTENT touches the delimiters: begins / ends with `"`, is exactly `"`, contains `"#`
+    # runs shorter than the delimiter, begins / ends with `#` — with 1, 2 and 3 hashes.  The decoder must drop
+    # exactly one `"` and exactly N hashes per side.  (third element: extra units of the input alphabet)
+    ("raw_q_start", [['r#""a"#'], ['r"a"']], ['"']),
+    ("raw_q_end", [['r#"a""#'], ['r#"a"#']], ['"']),
+    ("raw_q_only", [['r#"""#'], ['"a"']]),
+    ("raw_q_both", [['r#""name""#'], ['r#"say "hi""#', 'r"name"']], ['"']),
+    ("raw_q_double", [['r#""""#'], ['r##"""##']]),
+    ("raw2_qhash", [['r##"a"#"##'], ['r##""#a"##', 'r##""#"##']], ['"', '#']),
+    ("raw3", [['r###"a"##"###'], ['r###""##"###', 'r###"""###'], ['r###"#"#"###']]),
+    ("raw_hash_edges", [['r#"#a#"#'], ['r"#"', 'r##"#"##']], ['a']),
+    ("raw_bslash_q", [['r#"\\""#'], ['r#"\\"#', '"\\""']]),
+    ("concat_raw_q", [[("concat", ['r#"""#', 'r#""a"#'])], [("concat", ['r#"a""#', '"\\""'])], ['r"a"']]),
     ("multibyte", [['"ñ"'], ['"€"', '"😀"'], ['"ñ€"']]),
     ("multibyte_prefix", [['"ñ€"'], ['"ñ"'], ['"€x"']]),
     ("concat", [[("concat", ['"a"', '"b"'])], [("concat", ['"ñ"', 'r"\\"', '"\\n"'])], ['"a"']]),
@@ -43,6 +56,9 @@ SETS = [
     ("mixed", [['"\\u{F1}a"', 'r"ña"'], ['"\\x61\\x62"'], ['"b\\tc"']]),
     ("three_way", [['"aa"'], ['"a"'], ['"aab"']]),
 ]
+
+SETS = [(t[0], t[1], (t[2] if len(t) > 2 else [])) for t in SETS]
+EXTRA_UNITS = {sid: extra for sid, _, extra in SETS}
 
 FORMS_MATCH = ["strip_prefix", "strip_suffix", "find_skip", "rfind_skip"]
 FORMS_TRIM = ["trim_start_matches", "trim_end_matches"]
@@ -64,7 +80,12 @@ def alt_req(alt):
     return "L" + hexs(alt.encode())
 
 
-def program(set_id, branches, tier, style="expr"):
+def rust_str(text):
+    """a Rust string literal denoting `text` (only `\\` and `"` need escaping here)"""
+    return '"' + text.replace("\\", "\\\\").replace('"', '\\"') + '"'
+
+
+def program(set_id, branches, tier, style="expr", extra_units=()):
     flat = [(bi, alt) for bi, br in enumerate(branches) for alt in br]
     # rust: table of (branch, src descriptor, literal as &str)
     lits = ",\n        ".join(f'({bi}usize, "{alt_req(alt)}", {alt_src(alt)})' for bi, alt in flat)
@@ -156,7 +177,7 @@ fn o_trim_end_matches(mut p: Parser<'_>) -> String {
 fn main() {
     // input alphabet: the literals themselves, a filler and a multi-byte filler
     let mut units: Vec<String> = LITS.iter().map(|x| x.2.to_string()).filter(|s| !s.is_empty()).collect();
-    units.push("x".into()); units.push("ñ".into());
+    units.push("x".into()); units.push("ñ".into());__EXTRA__
     units.sort(); units.dedup();
     let mut inputs: Vec<String> = vec![String::new()];
     let mut layer = vec![String::new()];
@@ -175,23 +196,24 @@ fn main() {
 }
 '''
     return (src.replace("__LITS__", lits).replace("__ARMS__", match_arms).replace("__PATS__", pats)
-            .replace("__MAXU__", str(maxu)))
+            .replace("__MAXU__", str(maxu))
+            .replace("__EXTRA__", "".join(f" units.push({rust_str(u)}.into());" for u in extra_units)))
 
 
 def generate(ctx):
     tier = ctx["tier"]
     d = common.workdir("C18")
     jobs = []
-    SETS_ALL = list(SETS)
+    SETS_ALL = [(sid, branches) for sid, branches, _ in SETS]
     # the same sets again with block-bodied / mixed branch syntax where there are overlapping alternatives
-    for sid, branches in SETS:
+    for sid, branches, _ in SETS:
         if sid in ("overlap_long_first", "overlap_short_first", "three_way", "multibyte_prefix", "empty_lit"):
             SETS_ALL.append((sid + "@block", branches))
             SETS_ALL.append((sid + "@mixed", branches))
     for sid, branches in SETS_ALL:
         p = os.path.join(d, f"{sid.replace('@', '_')}.rs")
         style = sid.split("@")[1] if "@" in sid else "expr"
-        open(p, "w").write(program(sid, branches, tier, style))
+        open(p, "w").write(program(sid, branches, tier, style, EXTRA_UNITS[sid.split("@")[0]]))
         jobs.append((p, os.path.join(d, sid.replace('@', '_')), "link"))
     res = common.compile_many(jobs)
     tsv = os.path.join(d, "c18.tsv")
